@@ -170,6 +170,7 @@ def rule_of_three(p, ci, alpha, n):
 
 
 def envelope(x, dx, dy, include_own):
+    """Plain envelope (exact comparisons); used for reporting."""
     n = len(x)
     lower = np.empty(n)
     upper = np.empty(n)
@@ -185,19 +186,39 @@ def envelope(x, dx, dy, include_own):
     return np.stack([lower, upper], axis=-1)
 
 
-def band_matches(got, x, dx, dy):
-    """Envelope with or without the point's own (possibly non-covering) rectangle, per point."""
-    a = envelope(x, dx, dy, True)
-    b = envelope(x, dx, dy, False)
+def band_matches(got, x, dx, dy, eps=1e-9):
+    """The band at a point is the envelope of the rectangles covering it.  Whether a rectangle covers a
+    point is a discontinuous question: an interval bound computed as a quantile can differ by one ulp
+    between two correct implementations and flip it (seen in the thorough tier: 0.33333333333333337 vs
+    0.3333333333333333).  Rectangles whose bound lies within eps of the point are therefore *ambiguous* and
+    may or may not contribute, as may the point's own rectangle when it does not cover the point."""
     got = np.asarray(got, dtype=float)
-    if got.shape != a.shape:
-        return False, a
-    for i in range(len(x)):
-        ok_a = M.close(got[i], a[i], 1e-9)
-        ok_b = (not np.isnan(b[i]).any()) and M.close(got[i], b[i], 1e-9)
-        if not (ok_a or ok_b):
-            return False, a
-    return True, a
+    n = len(x)
+    ref = envelope(x, dx, dy, True)
+    if got.shape != (n, 2):
+        return False, ref
+    for i in range(n):
+        sure_lo, sure_up, amb_lo, amb_up = [], [], [], []
+        for j in range(n):
+            covers = dx[j, 0] <= x[i] <= dx[j, 1]
+            exact_edge = covers and (x[i] == dx[j, 0] or x[i] == dx[j, 1])  # closed intervals: a bound that is hit exactly covers
+            inside = (dx[j, 0] + eps <= x[i] <= dx[j, 1] - eps) or exact_edge
+            near = (dx[j, 0] - eps <= x[i] <= dx[j, 1] + eps) and not inside
+            if inside:
+                sure_lo.append(dy[j, 0])
+                sure_up.append(dy[j, 1])
+            elif near or j == i:
+                amb_lo.append(dy[j, 0])
+                amb_up.append(dy[j, 1])
+        base_lo = min(sure_lo) if sure_lo else np.inf
+        base_up = max(sure_up) if sure_up else -np.inf
+        cand_lo = [base_lo] + [min(base_lo, v) for v in amb_lo]
+        cand_up = [base_up] + [max(base_up, v) for v in amb_up]
+        ok_lo = any(np.isfinite(c) and abs(got[i, 0] - c) <= 1e-9 + 1e-9 * abs(c) for c in cand_lo)
+        ok_up = any(np.isfinite(c) and abs(got[i, 1] - c) <= 1e-9 + 1e-9 * abs(c) for c in cand_up)
+        if not (ok_lo and ok_up):
+            return False, ref
+    return True, ref
 
 
 class CallbackFault(Exception):
